@@ -225,6 +225,33 @@ def _check_plaintext(data, fcap, needles, out, stats):
                 if leak_scan(pt, needles) or b"URI:" in pt:
                     out.append(("rwcap-decryptable-without-write-key", "%s: entry %r rwcapdata decrypts to %r with a key derivable from the READ cap" % (where, name, pt[:80])))
                     return
+    check_keystream_reuse(entries, needles, out, where, stats)
+
+
+def _xor(a, b):
+    n = min(len(a), len(b))
+    return bytes(x ^ y for x, y in zip(a[:n], b[:n]))
+
+
+def check_keystream_reuse(entries, needles, out, where, stats):
+    """a read-cap holder who ALSO knows one child's write-cap (he created that child, say) must not
+    learn a sibling's: ct_i xor ct_j xor rw_i = rw_j whenever two entries were encrypted under the same
+    keystream.  Tried for every ordered pair of entries with every known write-cap as the known plaintext."""
+    bodies = [(name, rw[16:-32]) for (name, ro_uri, rw, md) in entries if len(rw) > 48]
+    caps = [n for (label, n) in needles.pairs if n.startswith(b"URI:")]
+    for i, (ni, ci) in enumerate(bodies):
+        for j, (nj, cj) in enumerate(bodies):
+            if i == j:
+                continue
+            x = _xor(ci, cj)
+            for known in caps:
+                if len(known) != len(ci):
+                    continue
+                stats["known_plaintext_attacks"] = stats.get("known_plaintext_attacks", 0) + 1
+                cand = _xor(x, known)
+                if len(cand) >= 12 and any(o != known and o[:len(cand)] == cand for o in caps):
+                    out.append(("sibling-write-cap-recoverable-from-one-known-write-cap", "%s: entries %r and %r are encrypted under the same keystream: knowing the write-cap stored in %r, a read-cap holder computes %r from the stored bytes" % (where, ni, nj, ni, cand[:60])))
+                    return
 
 
 def try_fire(f, *a, **kw):
